@@ -40,7 +40,7 @@ Quantified over: {q}
 
 AVOID (already used in earlier rounds; find something different in kind, not a variation):
 """ + "\n".join("- "+a for a in avoid) + """
-- (also already known and repaired in this tree, do not re-introduce: range bounds storing a raised error; `=@` storing a raised error; a body ending in defer evaluating it twice; embedded-string parts / kwargs / `%{**m}` evaluated in Go-map order; lexer refill ignoring short reads; FileNotFoundErr without prototype; SymHash2Str without lock; test runner sharing one scope; shared NotImplemented error accumulating stack traces; Arr#+ appending into the receiver; printing of repeated keyword names or look-alike map keys in Go-map order)
+- (also already known and repaired in this tree, do not re-introduce: range bounds storing a raised error; `=@` storing a raised error; a body ending in defer evaluating it twice; embedded-string parts / kwargs / `%{**m}` evaluated in Go-map order; lexer refill ignoring short reads; FileNotFoundErr without prototype; SymHash2Str without lock; test runner sharing one scope; shared NotImplemented error accumulating stack traces; Arr#+ appending into the receiver; printing of repeated keyword names or look-alike map keys in Go-map order; Obj#==/Map#== comparing values in Go-map order; an error raised by S during interpolation replaced by ValueErr; known and left alone: the second RunSource of a process sends puts/print to the first writer)
 
 Read the relevant code yourself and find your OWN idea; look in places the list above does not touch (other built-in props, native/*.pangaea sources, the parser actions, di/, runscript/, object/ constructors and copies, error paths). Subtle beats blunt.""")
 PY
